@@ -126,11 +126,11 @@ Definition boundary_ok (roots lf lk callers : list string) : bool :=
   forallb (fun m => in_strs ("codec.Codec." ++ fst (fst m)) roots) ConcGen.codec_methods &&
   forallb (fun e => in_strs ("codec.Codec." ++ after_colon e) lf) ConcGen.codec_entry_points.
 
-(* (7) calls through function values made by lock-free functions: callbacks handed down by
-   analysed code (their bodies are scanned with the function that creates them); packages
+(* (7) calls through function values made by lock-free functions: only parameters — callbacks
+   handed down by analysed code, whose bodies are scanned with the function that creates them —
+   never a function value read from a field or a variable; packages
    outside the analysed set that lock-free code calls into *)
-Definition dyncall_ok (d : string) : bool :=
-  in_strs (after_colon d) ["callback"; "cb"].
+Definition dyncall_ok (d : string) : bool := String.prefix "param:" (after_colon d).
 
 Definition ext_pkg_ok (p : string) : bool :=
   String.prefix "google.golang.org/protobuf/" p ||
